@@ -346,18 +346,15 @@ func calcStatusCode(cfg *ResponseConfig, a *asset, segmentPart string, nowMS int
 		cycle := ss.Cycle
 		cycleInTimescale := cycle * repTimescale
 		nrWraps := startTime / cycleInTimescale
-		wrapStartS := nrWraps * cycle
-		// Next we need to find the number after wrap
-		// For that we need to find the first segment nr after wrapStart
-		// Use nowMS = cycleStart to look up the latest segment published at that time
-		firstNr := 0
-		if nrWraps > 0 {
-			lastNr := findLastSegNr(cfg, a, wrapStartS*1000, segMeta.rep)
-			firstNr = lastNr + 1
-		}
-		segTime := findSegStartTime(a, cfg, firstNr, segMeta.rep)
-		if segTime < wrapStartS*repTimescale {
-			firstNr += 1
+		wrapStart := nrWraps * cycleInTimescale
+		// The relative sequence number is the number of earlier segments (of the reference
+		// track, counted from the start of the stream) that start in the same cycle.
+		// Media time is relative to availabilityStartTime, so neither the start time
+		// nor the start number of the configuration enter here.
+		startNr := cfg.getStartNr()
+		firstNr := int(segMeta.newNr)
+		for firstNr > startNr && findSegStartTime(a, cfg, firstNr-1, segMeta.rep) >= wrapStart {
+			firstNr--
 		}
 		idx := int(segMeta.newNr) - firstNr
 		if idx < 0 {
